@@ -9,6 +9,9 @@ Proof of mechanism + bounded stand-in (DESIGN section 5, C12; reference rules Ap
                       lstrip_blocks + block/comment/raw tag => the part after the last line break is removed iff it is
                       non-empty, all whitespace and starts a line; variable tag / lstrip off => unchanged; only whitespace is
                       ever removed; every other group is untouched.
+  C12.line_starting   the flag the segment above takes as input: whole loop body of tokeniter (every rule shape), after a match
+                      line_starting' <=> the match is non-empty and source[pos'-1] is a line break; invariant
+                      line_starting => pos == 0 or source[pos-1] == "\\n" (entry: INIT segment).
   C12.rules.right     regex facts on the parsed end-tag patterns of every configuration of the A9 family.
   C12.rules.left      regex facts the lstrip VC assumes (root-rule shape, sign groups, variable branch).
   C12.ws.same_class   table: `\\s` (re), str.isspace and what str.rstrip() strips are the same class, all code points.
@@ -620,7 +623,49 @@ def bounded_tasks():
     return ts
 
 
-TASKS = (lstrip_tasks()
+# ====================================================================== C12.line_starting
+
+from contracts import c39 as _c39  # noqa: E402  (the loop-body segment VC of Lexer.tokeniter lives there)
+
+
+def replay_line_starting(w):
+    """Natively, with C12's own oracle: the extended skeleton corpus (every tag variant incl. raw blocks with whitespace-only
+    bodies, all N <= 1 and 2000 seeded N = 2, four trim/lstrip settings) rendered by the REAL Environment against the
+    reference trimming function."""
+    fams = ["default"] + ([w["family"]] if w.get("family") in ("asp", "dollar", "shared") else [])
+    n = 0
+    for fam in fams:
+        for ids in X.family_sample(0, n2=2000):
+            for setting in X.SETTINGS:
+                if not setting[1] and n > 20000:
+                    continue  # the flag only matters with lstrip_blocks
+                src, got, want = render_case_family(ids, setting, fam)
+                n += 1
+                if got != want:
+                    return (True, f"{fam} delimiters, {src!r} trim_blocks={setting[0]} lstrip_blocks={setting[1]}: rendered {got!r}, documented rules give {want!r}")
+    return (False, f"{n} renders agree with the reference trimming function")
+
+
+class LineStarting(_c39.LoopBody):
+    """C12.line_starting: the `line_starting` flag that C12.lstrip.left takes as an input is maintained correctly by EVERY
+    rule of the tokenizer loop (whole loop body, real source, one VC per rule shape): after a match it is true iff the
+    match is non-empty and the consumed text source[:pos'] ends in a line break; hence the invariant
+    `line_starting => pos == 0 or source[pos-1] == '\n'` (assumed on entry, proved on exit; established by the INIT segment)."""
+
+    def replay(self, w):
+        return replay_line_starting(w)
+
+
+class LineStartingInit(_c39.LoopInit):
+    def replay(self, w):
+        return replay_line_starting({"family": "default"})
+
+
+def line_starting_tasks():
+    return _c39.loop_tasks(("linestart",), "C12.line_starting", cls=LineStarting) + [LineStartingInit(None, prefix="C12.line_starting.init")]
+
+
+TASKS = (lstrip_tasks() + line_starting_tasks()
          + [FnTask(PROP, "C12.rules.right", rules_right, kind="regex", replay_fn=replay_rules_right),
             FnTask(PROP, "C12.rules.left", rules_left, kind="regex", replay_fn=lambda w: (None, "structural fact; see C12.bounded.trim")),
             FnTask(PROP, "C12.ws.same_class", ws_same_class, kind="table", replay_fn=replay_ws),
@@ -643,7 +688,8 @@ META = {
         "A8: `re` implements leftmost / ordered-alternation / lazy-greedy semantics and re._parser describes the pattern `re` executes",
         "A9: regex facts are extracted for the finite listed family of 30 lexer configurations (pyvc.regexfacts.family)",
         "definitional extension K = position after the last line break of the text (exists uniquely for every string)",
-        "line_starting is taken as a symbolic input of the segment (its maintenance `m.group()[-1:] == '\\n'` is covered by C39's loop-body VC and the stand-in)",
+        "line_starting is a symbolic input of the OptionalLStrip segment; its meaning (line_starting => the text starts a line; set iff the "
+        "last match ended in a line break) is proved for every rule of the loop by C12.line_starting (loop-body VCs shared with C39)",
     ],
     "trusted_base": [
         "z3 / cvc5 1.0.3 (--strings-exp)", "pyvc symbolic executor", "pyvc.regexfacts (parse-tree facts, to_z3 translation)",
